@@ -58,10 +58,15 @@ impl NRDRelativeHeight {
 pub uninterp spec fn spec_nrd(height: u64) -> NRDRelativeHeight;
 pub enum Weighting { AsTransaction, AsLimitedTransaction(u64), AsBlock, NoLimit }
 // ghost views of a transaction: its kernels and the numbers of inputs / outputs, its total fee
-pub uninterp spec fn tx_kernels(t: Transaction) -> Seq<TxKernelFull>;
-pub uninterp spec fn tx_num_inputs(t: Transaction) -> nat;
-pub uninterp spec fn tx_num_outputs(t: Transaction) -> nat;
-pub uninterp spec fn tx_fee_total(t: Transaction) -> u64;
+// (the views below depend on the transaction body only, not on the kernel offset)
+pub uninterp spec fn body_kernels(b: u64) -> Seq<TxKernelFull>;
+pub open spec fn tx_kernels(t: Transaction) -> Seq<TxKernelFull> { body_kernels(t.t) }
+pub uninterp spec fn body_num_inputs(b: u64) -> nat;
+pub open spec fn tx_num_inputs(t: Transaction) -> nat { body_num_inputs(t.t) }
+pub uninterp spec fn body_num_outputs(b: u64) -> nat;
+pub open spec fn tx_num_outputs(t: Transaction) -> nat { body_num_outputs(t.t) }
+pub uninterp spec fn body_fee_total(b: u64) -> u64;
+pub open spec fn tx_fee_total(t: Transaction) -> u64 { body_fee_total(t.t) }
 pub uninterp spec fn kernel_verifies(k: TxKernelFull) -> bool;         // kernel signature valid for its excess and message
 pub uninterp spec fn tx_valid(t: Transaction) -> bool;                 // Transaction::validate(Weighting::AsTransaction)
 pub uninterp spec fn spec_kernels_fee(k: Seq<TxKernelFull>) -> u64;
@@ -85,7 +90,7 @@ impl Transaction {
     #[verifier::external_body]
     pub fn replace_kernel(self, k: TxKernelFull) -> (r: Transaction)
         ensures r == spec_replace_kernel(self, k), tx_kernels(r) == seq![k], tx_num_inputs(r) == tx_num_inputs(self),
-            tx_num_outputs(r) == tx_num_outputs(self), tx_parts(r) == tx_parts(self), tx_fee_total(r) == spec_kernels_fee(seq![k])
+            tx_num_outputs(r) == tx_num_outputs(self), tx_parts(r) == tx_parts(self), tx_fee_total(r) == spec_kernels_fee(seq![k]), r.offset == self.offset
     { unimplemented!() }
     #[verifier::external_body]
     pub fn validate(&self, w: Weighting) -> (r: Result<(), transaction::Error>) ensures (r is Ok) == tx_valid(*self) { unimplemented!() }
